@@ -315,6 +315,17 @@ func genCopyGeom(r *simrt.RNG, typ string, g grid) *gpkgh.G {
 	}
 	empty := r.Chance(0.08)
 	out := &gpkgh.G{T: typ}
+	if empty && r.Chance(0.3) {
+		// empty although it has members
+		switch typ {
+		case gpkgh.TCollection:
+			out.C = []*gpkgh.G{{T: gpkgh.TPoint, P: [][2]float64{}}}
+			return out
+		case gpkgh.TMultiLineString:
+			out.L = [][][2]float64{{}}
+			return out
+		}
+	}
 	switch typ {
 	case gpkgh.TCollection:
 		if !empty {
@@ -665,7 +676,7 @@ func genWork(seed uint64) (twork, simrt.FaultPlan, simrt.MapPolicy, uint64) {
 	case x < 9:
 		w.Existing, w.Overwrite = "empty", true
 	default:
-		w.Existing, w.Overwrite = "garbage", true
+		w.Existing, w.Overwrite = []string{"garbage", "garbage", "symlink", "empty-dir"}[r.Intn(4)], true
 	}
 	w.ExistingMask = ^uint64(0)
 	if r.Chance(0.5) {
@@ -678,10 +689,16 @@ func genWork(seed uint64) (twork, simrt.FaultPlan, simrt.MapPolicy, uint64) {
 		{Name: "Amersfoort / RD New", ID: 28992, Org: "EPSG", OrgID: 28992, Definition: `PROJCS["Amersfoort / RD New"]`, Description: "rd"},
 		{Name: "made up", ID: 900000 + r.Intn(1000), Org: "NONE", OrgID: 7, Definition: "undefined", Description: ""},
 		{Name: "WebMercator src", ID: 3857, Org: "epsg", OrgID: 3857, Definition: `PROJCS["WGS 84 / Pseudo-Mercator"]`, Description: "src"},
+		// a second row for the same reference system under an id of its own
+		{Name: "Amersfoort / RD New (alias)", ID: 100000 + r.Intn(1000), Org: "EPSG", OrgID: 28992, Definition: `PROJCS["Amersfoort / RD New"]`, Description: "alias"},
 	}
 	perm := r.Perm(len(srss))
 	for i := 0; i < nsrs; i++ {
 		w.Source.SRS = append(w.Source.SRS, srss[perm[i]])
+	}
+	if r.Chance(0.1) {
+		w.Source.SRS = []gpkgh.SRS{srss[0], srss[3]} // both rows of the same reference system
+		nsrs = 2
 	}
 	used := map[string]bool{}
 	nullGeoms := r.Chance(0.25)
@@ -1036,6 +1053,20 @@ func prepare(w *twork, seed uint64, dir string) prepared {
 				cut := 100 + int(simrt.HashString(tp)%uint64(len(b)-100))
 				os.WriteFile(tp, b[:cut], 0o644)
 			}
+		case "symlink":
+			// the target path is a link to an older GeoPackage somewhere else: removing the
+			// target means removing the link; the file it points to is not the tool's business
+			linked := filepath.Join(dir, "linked_old_"+strconv.Itoa(id)+".gpkg")
+			if err := gpkgh.WriteSource(linked, previousContent(seed+uint64(k))); err != nil {
+				simh.Fatalf("pre-existing target: %v", err)
+			}
+			if err := os.Symlink(linked, tp); err != nil {
+				simh.Fatalf("pre-existing target: %v", err)
+			}
+			lrel, _ := filepath.Rel(dir, linked)
+			p.decoys[lrel] = fileHash(linked)
+		case "empty-dir":
+			os.Mkdir(tp, 0o755)
 		case "empty":
 			os.WriteFile(tp, nil, 0o644)
 		case "garbage":
@@ -1104,6 +1135,9 @@ func notePreTables(w *twork, p *prepared) {
 	for _, id := range w.IDs {
 		tp := targetName(p.target, id)
 		rel, _ := filepath.Rel(p.dir, tp)
+		if fi, err := os.Lstat(tp); err == nil && fi.Mode()&os.ModeSymlink != 0 {
+			continue // (a link: the file behind it is watched as a file the tool must leave alone)
+		}
 		if d, err := gpkgh.ReadFile(tp); err == nil {
 			m := map[string]bool{}
 			for _, t := range d.UserTables {
